@@ -8,7 +8,10 @@ GENERATED = ["split"]
 THEOREMS = ["Pomerol.Properties.C06." + t for t in (
     "colours_valid", "colours_cover", "component_colour_valid", "component_colours_cover", "component_computed_by_one_colour",
     "sender_holds_the_table", "tables_delivered", "evaluable_everywhere", "world_collectives_match",
-    "colour_collectives_match", "last_root_loses_table", "world_barrier_mismatch")]
+    "colour_collectives_match", "last_root_loses_table", "world_barrier_mismatch",
+    "all_ranks_hold_all_parts", "wrong_map_spreads_stale_data", "root_table_equals_serial_table",
+    "root_table_independent_of_map_and_size", "double_execution_counts_twice", "distributed_step_refines_serial",
+    "source_collective_pattern")]
 RULE = ("a case = random model + workflow script (spectrum, G, chi from terms and from returned tables, split and unsplit "
         "container computation) executed by the real library under mpiexec with np in {2,3,4} (thorough: up to 16, incl. counts "
         "not dividing the number of jobs/components) x OMP_NUM_THREADS in {1,4} with seeded per-job delays (hook) under a "
@@ -25,8 +28,12 @@ LEVEL_TEXT = ("Proof (logic part): for every number of processes and components 
               "delivered and every component is evaluable on every process, all processes issue the same sequence of world "
               "collectives and all members of a colour the same sequence of colour collectives (no collective mismatch = the "
               "standard sufficient condition against hangs), with the dispatcher theorems of C16 for the per-communicator job "
-              "distribution. PARTIAL: equality of numerical results across rank/thread counts and actual termination are "
-              "established by mpiexec runs with timeouts, not by a theorem.")
+              "distribution; and (Model/Collect, composed with the dispatcher theorems): for every terminated dispatch the "
+              "broadcasts rooted at job_map[p] leave every rank with exactly the data computed by the executing ranks, the "
+              "table reduced to the root equals the table a single rank accumulates (exact arithmetic), independent of the "
+              "number of ranks and of the job map; the broadcast/reduce pattern itself is extracted from Hamiltonian.cpp and "
+              "TwoParticleGF.cpp on every run. PARTIAL: floating-point re-association, OpenMP interleavings and actual "
+              "termination of the MPI runtime are established by mpiexec runs with timeouts, not by a theorem.")
 LEVEL_NOTE = "Trusted: MPI/OpenMP runtimes, the mapping of MPI_Comm_split rank order to world rank order; partial (see assumptions)."
 TECHNIQUE = "Lean 4 proof of the rank/colour bookkeeping and collective-sequence matching + multi-rank differential execution with timeouts"
 DESIGN_REF = "DESIGN.md section 6, C06"
